@@ -111,7 +111,8 @@ def gen_source(rng, k):
     for a, bs in sorted(g.arrays.items()):
         dims = []
         for lb, ub in bs:
-            dims.append("%d:%s" % (lb, "nb" if (nbval is not None and ub == nbval) else str(ub)))
+            # (a negative lower bound next to a symbolic upper bound is read as UnsupportedFortranType)
+            dims.append("%d:%s" % (lb, "nb" if (nbval is not None and ub == nbval and lb >= 0) else str(ub)))
         decl.append("integer, dimension(%s) :: %s" % (", ".join(dims), a))
     if "modkind" in feats:
         body.append("g = 1_wp + s")
@@ -174,6 +175,11 @@ NODE_CLASSES = {"FileContainer", "Container", "Routine", "Schedule", "Loop", "If
                 "BinaryOperation", "UnaryOperation", "Call", "IntrinsicCall", "Range", "Return"}
 TYPED = {"DataSymbol", "DataTypeSymbol", "RoutineSymbol", "IntrinsicSymbol"}
 UNTYPED = {"Symbol", "ContainerSymbol"}
+
+
+def intf_pay(itf):
+    txt = str(itf)
+    return "intf:%s:%s" % (type(itf).__name__, "" if " object at 0x" in txt else txt)
 
 
 class Ser:
@@ -320,7 +326,7 @@ class Ser:
         new = id(itf) not in self.oid
         o = self.obj_id(id(itf), itf)
         if new:
-            self.objs[o] = ([], [], self.intern("intf:%s:%s" % (type(itf).__name__, itf)))
+            self.objs[o] = ([], [], self.intern(intf_pay(itf)))
         return o
 
     def flush(self):
@@ -488,7 +494,7 @@ class Obs:
         new = ser.oid[ko] + OOFF
         self.keep.append(c_obj)
         if is_intf:
-            self.cobjs[new] = ([], [], ser.intern("intf:%s:%s" % (type(c_obj).__name__, c_obj)))
+            self.cobjs[new] = ([], [], ser.intern(intf_pay(c_obj)))
         else:
             b, sy, pay, _ = ser.collect(c_obj, self.sym, self.loose_node)
             self.cobjs[new] = (b, sy, ser.intern(pay))
@@ -921,6 +927,14 @@ def replay_witnesses(ctx):
 
 
 # ------------------------------------------------------------------ one subtree = one case
+def indep_failure(applied, touched, before, after, side, safe, src, kname, pos, dseed, b_root, ser):
+    e = applied[-1]
+    return {"keys": classify(touched, b_root, ser), "side_edited": side, "edit": e.desc,
+            "inplace": any(x.inplace for x in applied), "edits_before": [x.desc for x in applied[:-1]],
+            "safe": safe, "source": src, "subtree": kname, "abs_position": pos, "decorate_seed": dseed,
+            "diff": "\n".join(difflib.unified_diff(before.split("\n"), after.split("\n"), lineterm="", n=0))[:800]}
+
+
 def subtree_path(root, n):
     return n.abs_position - root.abs_position if root is not n else 0
 
@@ -981,7 +995,11 @@ def run_case(ctx, rng, src, feats, prog_idx, tree, ser, n, results, counter):
         results["meta"].append({"prog": prog_idx, "kind": kname, "abs_position": pos, "source": src})
     # --- the property itself
     fails = direct_checks(n, c)
-    if text_o != text_c and not text_o.startswith("WRITER-ERROR"):
+    # the writer is context dependent for expressions (parentheses, `call` for a Call without a Schedule
+    # parent): the text of a detached copy is compared with the in-tree text for statements / scopes only
+    stmt_like = isinstance(n, (N.Routine, N.Container, N.Schedule, N.Loop, N.IfBlock, N.Assignment)) or \
+        (isinstance(n, N.Call) and isinstance(n.parent, N.Schedule))
+    if text_o != text_c and not text_o.startswith("WRITER-ERROR") and stmt_like:
         ctx.hist("copy_text_differs_from_original_text", kname)
         fails.append(("copy_equal/written-text-differs:" + kname,
                       "\n".join(difflib.unified_diff(text_o.split("\n"), text_c.split("\n"), lineterm="", n=0))[:600]))
@@ -997,8 +1015,11 @@ def run_case(ctx, rng, src, feats, prog_idx, tree, ser, n, results, counter):
             c2 = o2.copy()
             a, b_root, b = (o2, c2, c2) if side == "original" else (c2, tree2, o2)
             allow_inplace = rng.random() < 0.25
-            before = write_tree(b_root)
+            whole = side == "copy" and rng.random() < results["whole_root"]
+            before = write_tree(b)
+            before_root = write_tree(b_root) if whole else None
             applied = []
+            failed = False
             for _ in range(rng.randint(1, results["seq_len"])):
                 e = random_edit(rng, a, allow_inplace, counter)
                 if e is None:
@@ -1008,15 +1029,18 @@ def run_case(ctx, rng, src, feats, prog_idx, tree, ser, n, results, counter):
                     continue
                 applied.append(e)
                 n_acc += 1
-                after = write_tree(b_root)
+                after = write_tree(b)
                 if after != before:
-                    keys = classify(e.touched, b_root, ser)
-                    diff = "\n".join(difflib.unified_diff(before.split("\n"), after.split("\n"), lineterm="", n=0))[:800]
-                    results["indep"].append({"keys": keys, "side_edited": side, "edit": e.desc, "inplace": e.inplace,
-                                             "edits_before": [x.desc for x in applied[:-1]],
-                                             "safe": safe, "source": src, "subtree": kname, "abs_position": pos,
-                                             "decorate_seed": results["decor_seed"][prog_idx], "diff": diff})
+                    failed = True
+                    results["indep"].append(indep_failure(applied, e.touched, before, after, side, safe, src, kname, pos,
+                                                          results["decor_seed"][prog_idx], b_root, ser))
                     break
+            if whole and not failed and applied:
+                after_root = write_tree(b_root)
+                if after_root != before_root:
+                    touched = [x for e in applied for x in e.touched]
+                    results["indep"].append(indep_failure(applied, touched, before_root, after_root, side, safe, src, kname,
+                                                          pos, results["decor_seed"][prog_idx], b_root, ser))
             ctx.hist("edit_sequences", side)
     ctx.count((hashlib.sha1(src.encode()).hexdigest(), pos), nontrivial=(n_acc > 0))
     if len(ctx.cov["samples"]) < 4 and kname in ("Routine", "Loop", "Container") and n_acc:
@@ -1029,10 +1053,22 @@ _CACHE = {}
 
 
 def _reread(src, decor_seed):
-    """a fresh, identically decorated tree for the same source"""
+    """a fresh, identically decorated tree for the same source (= FortranReader.psyir_from_source, with
+    the fparser2 parse tree cached: parsing is 50x the cost of building the PSyIR)"""
     import random
+    from fparser.common.readfortran import FortranStringReader
+    from fparser.common.sourceinfo import FortranFormat
+    from fparser.two.symbol_table import SYMBOL_TABLES
     from psyclone.psyir.frontend.fortran import FortranReader
-    t = FortranReader().psyir_from_source(src)
+    rd = FortranReader()
+    if src not in _CACHE:
+        if len(_CACHE) > 8:
+            _CACHE.clear()
+        SYMBOL_TABLES.clear()
+        sr = FortranStringReader(src)
+        sr.set_format(FortranFormat(True, False))
+        _CACHE[src] = rd._parser(sr)
+    t = rd._processor.generate_psyir(_CACHE[src])
     decorate(random.Random(decor_seed), t)
     return t
 
@@ -1064,12 +1100,13 @@ def run(ctx):
     ctx.log("proof ok=%s discharged=%d/%d" % (ok, ctx.cov["discharged"], ctx.cov["obligations"]))
 
     replay_witnesses(ctx)
+    ctx.log("witnesses replayed")
 
     rng = ctx.rng("gen")
-    n_prog = ctx.pick(26, 220)
-    per_prog = ctx.pick(9, 14)
+    n_prog = ctx.pick(12, 160)
+    per_prog = ctx.pick(8, 14)
     results = {"cases": [], "meta": [], "broken": [], "direct": [], "indep": [], "decor_seed": {},
-               "trials": ctx.pick(1, 2), "seq_len": ctx.pick(4, 6)}
+               "trials": ctx.pick(1, 2), "seq_len": ctx.pick(4, 6), "whole_root": ctx.pick(0.5, 1.0)}
     counter = [0]
     out_of_subset = 0
     for k in range(n_prog):
@@ -1098,8 +1135,11 @@ def run(ctx):
 
     header = "From PV Require Import C15.Model.\nOpen Scope N_scope."
     cases = results["cases"]
-    bad_ref = ctx.coq_eval_failing(header, "case", "refines", cases, shard=12)
-    bad_exact = ctx.coq_eval_failing(header, "case", "agrees", cases, shard=12)
+    ctx.log("implementation side done: %d cases; evaluating the model (vm_compute)" % len(cases))
+    bad_ref = ctx.coq_eval_failing(header, "case", "refines", cases, shard=ctx.pick(25, 40))
+    ctx.log("refines evaluated")
+    # exact agreement is informational (how often the implementation is stricter than the model)
+    bad_exact = ctx.coq_eval_failing(header, "case", "agrees", cases, shard=ctx.pick(25, 40)) if ctx.thorough else list(bad_ref)
     ctx.cov["disagreements_checked"] = len(bad_ref)
     ctx.notes["cases_where_implementation_is_stricter_than_model"] = len([i for i in bad_exact if i not in bad_ref])
     ctx.log("cases=%d refines-failures=%d exact-disagreements=%d broken-copies=%d direct-failures=%d "
@@ -1136,15 +1176,15 @@ def run(ctx):
     ctx.notes["concrete_property_failures_seen"] = concrete
 
     # ---------------- model/implementation or proof broken
-    unexplained = [i for i in bad_ref]
-    if unexplained or not ok:
-        if ctx.violations:
-            ctx.log("model/proof breakage accompanies concrete violations above")
-        i = unexplained[0] if unexplained else None
-        ctx.violation({"property": "C15",
-                       "broken": ("correspondence `refines`: the implementation's copy shares more / re-binds less than "
-                                  "coq/C15/Model.v copy") if unexplained else "proof obligations of Properties/C15.v",
-                       "proof_report": rep if not ok else None,
-                       "first_differing_case": results["meta"][i] if i is not None else None,
-                       "n_differing": len(unexplained)},
-                      no_input=not any(not p[1] for p in ctx.violations))
+    if bad_ref or not ok:
+        i = bad_ref[0] if bad_ref else None
+        rec = {"property": "C15",
+               "broken": ("correspondence `refines`: the implementation's copy shares more / re-binds less than "
+                          "coq/C15/Model.v copy") if bad_ref else "proof obligations of Properties/C15.v",
+               "proof_report": rep if not ok else None,
+               "first_differing_case": results["meta"][i] if i is not None else None,
+               "n_differing": len(bad_ref)}
+        if any(not no_input for _, no_input in ctx.violations):
+            ctx.log("model/proof breakage accompanies the concrete violations above: %s" % rec["broken"])
+        else:
+            ctx.violation(rec, no_input=True)
